@@ -6,6 +6,7 @@ CONSTANTS
   BugNextArgNoSkip = FALSE
   BugUseFlagAll = FALSE
   BugOptionalOrigState = FALSE
+  BugNames = "none"
 VIEW View
 INVARIANTS TypeOK FamilyTerminates ConsumedExactlyOnce OptionValueNotPositional FlagNeverFails HelpLaw SuccessLeavesNothing
 CHECK_DEADLOCK FALSE
